@@ -222,6 +222,31 @@ def build():
             len > 0 ==> final(self).logmem.writes@ == old(self).logmem.writes@ + expected_writes(*old(self), first_page(offset),
                 if last_page(offset, len) + 1 < old(self).number_of_pages { last_page(offset, len) + 1 } else if first_page(offset) < old(self).number_of_pages { old(self).number_of_pages as int } else { first_page(offset) }),""")
     u.raw("}")
+    # ---- C15: BitmapMmapRegion (the bitmap the guest-memory accessors call): slice offsets are added to the write offset, the
+    # shared inner bitmap does the page arithmetic; replace installs the new log
+    rspan = bmp.impl_span(r'^impl Bitmap for BitmapMmapRegion')
+    RW = [("R8", r'self\.inner\.(?:read|write)\(\)\.unwrap\(\)', 'self.inner.guard()'),
+          ("R8", r'if let Some\(bitmap\) = inner\.as_ref\(\)', 'if let Some(bitmap) = inner'),
+          ("R23", r'Arc::clone\(&self\.inner\)', 'self.inner.share()'),
+          ("R8", r'inner\.replace\(bitmap\);', '*inner = Some(bitmap);')]
+    u.raw("impl BitmapMmapRegion {")
+    u.extracted_fn(bmp, "mark_dirty", within=rspan, rename="region_mark_dirty", sig_rw=[("R8", r'&self\b', '&mut self')], body_rw=RW, contract="""
+        requires region_bitmap_wf(*old(self))
+        ensures final(self).base_address == old(self).base_address, final(self).inner.id == old(self).inner.id,
+            old(self).inner.b is None ==> final(self).inner.b is None, // no log installed: nothing recorded
+            (old(self).inner.b is Some && old(self).base_address + offset > usize::MAX) ==> final(self).inner.b == old(self).inner.b, // (an offset beyond the address space cannot be a write)
+            (old(self).inner.b is Some && old(self).base_address + offset <= usize::MAX) ==> final(self).inner.b is Some
+                && md_post(old(self).inner.b->Some_0, final(self).inner.b->Some_0, (old(self).base_address + offset) as usize, len), // [C15:slice-offset] a write at `offset` of a slice is logged as a write at base_address + offset of the region""")
+    u.extracted_fn(bmp, "slice_at", within=rspan, sig_rw=[("R3", r"<Self as WithBitmapSlice<'_>>::S", 'BitmapMmapRegion')],
+                   body_rw=RW + [("R3", r'\bSelf \{', 'BitmapMmapRegion {')], contract="""
+        ensures r.inner.id == self.inner.id && r.inner.b == self.inner.b, // [C15] a slice shares the region's (replaceable) inner bitmap
+            r.base_address == (if self.base_address + offset <= usize::MAX { (self.base_address + offset) as usize } else { usize::MAX }), // [C15:slice-offset] offsets of nested slices add up""")
+    u.raw("}")
+    r2span = bmp.impl_span(r'^impl BitmapReplace for BitmapMmapRegion')
+    u.raw("impl BitmapMmapRegion {")
+    u.extracted_fn(bmp, "replace", within=r2span, sig_rw=[("R8", r'&self\b', '&mut self')], body_rw=RW, contract="""
+        ensures final(self).inner.b == Some(bitmap), final(self).base_address == old(self).base_address, final(self).inner.id == old(self).inner.id, // [C15] SET_LOG_BASE's replace installs exactly the new log in the shared cell""")
+    u.raw("}")
     # frame condition for "concurrent writers never lose each other's bits": the log is modified only by atomic fetch_or
     md = u.rw.strip_comments(bmp.fn_body("mark_dirty", within=span))
     u.scan(["C15"], "mark_dirty_writes_only_by_fetch_or",
